@@ -433,6 +433,9 @@ func lateNames(c *runner.Ctx) {
 				if perCallToo {
 					steps = append(steps, struct{ what, got, want string }{"per-call definition wins", call(valid.Name2FnMap{name: mkFn("call-" + name)}), `"` + path + `" input "toolong", explain: call-` + name + "; " + size})
 				}
+				// the name is registered again with another function: the table as it is at call time decides
+				valid.SetCustomerValidFn(name, mkFn("global2-"+name))
+				steps = append(steps, struct{ what, got, want string }{"after re-registration", call(nil), `"` + path + `" input "toolong", explain: global2-` + name + "; " + size})
 				c.Done(true, len(steps))
 				for _, st := range steps {
 					if st.got != st.want {
